@@ -478,7 +478,10 @@ def select_configs(rnd, registry, n_random):
     add("bogus", [], never, True, "ipython")
     for c in c19.gen(rnd, registry, n_random, False)[-n_random:] if n_random else []:
         pre_closed = c19.closure_pre(c["pre"])
-        unl = [m for m in c["unloadable"] if m not in pre_closed]
+        if any(m in never for m in pre_closed):
+            continue        # C19's generator may pre-import libsnark modules (it can make a stand-in importable); these children cannot
+        # the children of this check never see C19's `libsnark` stand-in: the libsnark modules are unloadable in every configuration
+        unl = [m for m in list(c["unloadable"]) + [x for x in never if x not in c["unloadable"]] if m not in pre_closed]
         add(c["env"], c["pre"], unl, c["ipython"], "random")
     seen = set(); out = []
     for c in cfgs:
